@@ -348,9 +348,10 @@ def stepCore (s : State) : Op → State × Out
     if !s.layerTraining then (sg, .ok)
     else
       let ran := s.post.takeWhile (fun e => !blocked s e)
-      let s' := { sg with mons := fun mid =>
-        if ran.any (fun e => e.2 == mid) then { sg.mons mid with count := (sg.mons mid).count + 1 } else sg.mons mid }
-      (s', if ran.length < s.post.length then .err .AttributeError else .ok)
+      let counted : Nat → Monitor := fun mid =>
+        let m := sg.mons mid
+        if ran.any (fun e => e.2 == mid) then { m with count := m.count + 1 } else m
+      ({ sg with mons := counted }, if ran.length < s.post.length then .err .AttributeError else .ok)
   | .trainerStep t =>
     let T := s.trainers t
     if !T.alive then (s, .noref)
